@@ -208,7 +208,7 @@ class Verdict:
         self.broken = []         # obligations / correspondences that no longer check
         self.t0 = time.time()
         self.known = [k for k in load_known() if k.get("property") == pid and k.get("status") == "open"]
-        for f in glob.glob(os.path.join(VERIF, "evidence", "replay", "%s-*.json" % pid)):
+        for f in ([] if REPLAY_PATH else glob.glob(os.path.join(VERIF, "evidence", "replay", "%s-*.json" % pid))):
             try:
                 os.remove(f)
             except OSError:
@@ -235,6 +235,14 @@ class Verdict:
         rc = 0
         rdir = os.path.join(VERIF, "evidence", "replay")
         os.makedirs(rdir, exist_ok=True)
+        if REPLAY_PATH:
+            # replay of one recorded case: report, write nothing
+            for sig in sorted({v["signature"] for v in self.violations}):
+                print("VIOLATION property=%s replay=%s [%s]" % (self.pid, REPLAY_PATH, sig))
+            if self.broken and not self.violations:
+                print("VIOLATION property=%s replay=%s no-failing-input-found" % (self.pid, REPLAY_PATH))
+            print("[%s] replay wall=%.1fs violations=%d known=%d" % (self.pid, wall, len(self.violations), sum(v["count"] for v in self.known_seen.values())))
+            return 1 if (self.violations or self.broken) else 0
         if self.violations:
             # one replay per distinct signature, smallest case first
             seen = {}
@@ -325,7 +333,12 @@ def parse_args(argv):
     a = ap.parse_args(argv)
     if a.tier not in ("quick", "thorough"):
         a.tier = "quick"
+    global REPLAY_PATH
+    REPLAY_PATH = os.path.abspath(a.replay) if a.replay else None
     return a
+
+
+REPLAY_PATH = None      # set when one recorded case is replayed: nothing under evidence/ is written or removed then
 
 
 def first_diff(a, b, ctx=160):
